@@ -46,8 +46,10 @@ CHECKS = {
         text=("Coq theorems about the model of get_const (the real worklist, fuel = tree size proved sufficient), const_data and the consumers: "
               "get_const answers Const exactly for expressions const by the README rule (char literals excepted, refuted witness), accepted "
               "array lengths and discriminants denote the expression's value, non-const is reported, consumers do not crash on supported "
-              "kinds (comptime-argument crashes refuted with witnesses). Exhaustive expression kind x const position x declaration order "
-              "through the real front end with comptime evaluation; accepted array lengths reflected at run time."),
+              "kinds (comptime-argument crashes refuted with witnesses). A multi-file world model (names resolved in the file of the body being evaluated) with value theorems "
+              "for worlds (C15_world_accepted_*_denotes). Exhaustive expression kind x const position x declaration order through the real front "
+              "end with comptime evaluation; accepted array lengths reflected at run time; 60 imported-global chains with same-named globals in "
+              "the importer, reflected values compared with the denoted value."),
         design_ref="DESIGN.md section 6 C15, section 10.6",
         note=TB + "The type-annotation consumer (const_ty) is checked with the spec as oracle but not modelled; JIT evaluation and two indexing crashes lie outside the model and are reported as findings. Axioms: none.",
         technique="Coq proof (worklist invariant with fuel bound, inductive IsConst) + exhaustive front-end correspondence + end-to-end reflected lengths"),
@@ -90,7 +92,7 @@ CHECKS = {
               "evaluating the substituted code (C16_subst_equiv), a generic call behaves like a call to the appended hand-substituted copy up "
               "to the fault's function index, equal comptime arguments give equal behaviour, instantiation-table non-interference. The real "
               "instantiation machinery is only tested: generated programs with generic functions (1-3 comptime parameters: integer types, "
-              "integers; nested generic calls) instantiated 1-4 times vs the same AST with substituted copies (python subst = extracted Coq "
+              "integers; nested generic calls; forwarding chains that pass comptime parameters on in permuted/duplicated order with compile-time fingerprints) instantiated 1-4 times vs the same AST with substituted copies (python subst = extracted Coq "
               "subst_fun on every case); real generic = real copy = eval_prog."),
         design_ref="DESIGN.md section 6 C16, section 10.12",
         note=TB + "Type arguments: integer and distinct integer types, struct/enum types for opaque uses, generics in another file; not generated: inline header references and varargs; the table model is not tied to hir_ty by a harness. Axioms: none.",
@@ -203,8 +205,8 @@ CHECKS = {
               "surplus AddTokens; every recorded error position lies within the input; previous_token_range out-of-bounds condition "
               "characterised; linear fuel for printed expressions only (parse_terminates_partial). NOT proved: the full grammar's totality, "
               "termination and panic-freedom - decided per input on the real parser by an oracle (no panic, CPU watchdog, linear budget, "
-              "tree text == input, error ranges in range) over exhaustive <=4-token sequences, soups, fixtures/examples/core mutations, "
-              "nesting to 200; the real event lists are replayed through the extracted Sink model."),
+              "tree text == input, error ranges in range) over exhaustive <=4-token sequences, a recovery-stress stream (every loop body x embedding position x recovery-set token), soups, "
+              "fixtures/examples/core mutations, nesting to 200; the real event lists are replayed through the extracted Sink model."),
         design_ref="DESIGN.md section 6 C23/C24, section 10.10",
         note=TB + "The whole grammar (31 functions) is transcribed in Model/Grammar.v with cursor monotonicity, error ranges and well-bracketedness proved for both entry points and real event lists compared on every run; parse_fuel_linear is NOT proved. Four genuine parser defects (double bump over trivia; three never-terminating recovery loops) were repaired in /repo (d7fa2e4, 3c3ff74); the model variant in force mirrors the repaired code. Axioms: none.",
         technique="Coq proof of the event/sink layer (partial) + verified checkers on the real parser's output + watchdog oracle"),
